@@ -236,7 +236,10 @@ impl FileSystem for FakeFileSystem {
     }
 
     fn glob(&self, pattern: &str) -> Result<Vec<PathBuf>, LoadError> {
-        let pattern = glob::Pattern::new(pattern)?;
+        // Keys are looked up by canonical path, so `.` and `..` in the pattern
+        // (e.g. `include ../sub/*.ledger`) must be resolved the same way.
+        let pattern = self.canonicalize_path(Path::new(pattern));
+        let pattern = glob::Pattern::new(&pattern.to_string_lossy())?;
         let mut paths: Vec<PathBuf> = self
             .0
             .keys()
